@@ -121,8 +121,12 @@ class AsyncHTTP2Connection(AsyncConnectionInterface):
                 )
                 self._max_streams_semaphore = AsyncSemaphore(local_settings_max_streams)
 
-                for _ in range(local_settings_max_streams - self._max_streams):
-                    await self._max_streams_semaphore.acquire()
+                # The permits are free, so this never waits, but it must not be
+                # interrupted half way: the semaphore would no longer agree
+                # with '_max_streams'.
+                with AsyncShieldCancellation():
+                    for _ in range(local_settings_max_streams - self._max_streams):
+                        await self._max_streams_semaphore.acquire()
 
         await self._max_streams_semaphore.acquire()
 
